@@ -1,4 +1,5 @@
 import Ptn.C04.Model
+import Ptn.C04.TreeModel
 /-! Line-protocol handler for C04 (core Lean only).
 
 A node is written `<parent|->/<child,child,…|->`; identifiers are natural numbers; an identifier
@@ -15,6 +16,11 @@ Leg tokens: kN<n> kP bN<n> bP oN<n> oO oI BK<n> BO<n> BB<n>.
   root <ketnode> <branode>                                → contract_node_with_environment_nodes
   opany <ketnode> <opnode> <branode> <next> <offOp> <offBra> → contract_any_node_environment_but_one
   oproot <ketnode> <opnode>                               → state_operator contract_node_with_environment
+  tree2 <root> <id>:<ket kids>;<bra kids> …               → contract_two_ttns on the whole tree (global labels
+                                                             gK<i>_<n> gKP<i> gB<i>_<n> gBP<i>)
+  tree3 <root> <id>:<ket kids>;<operator kids> …          → expectation_value on the whole tree (… gO<i>_<n>
+                                                             gOO<i> gOI<i>; the bra is the conjugated ket)
+  asmat <root> <id>:<kids>;- …                            → TTNO.as_matrix: `order <ids> | rows <legs> | cols <legs> | binds …`
 -/
 namespace Ptn.C04
 
@@ -38,6 +44,9 @@ def showLeg : Leg → String
   | .braNb n => s!"bN{n}" | .braPhys => "bP"
   | .opNb n => s!"oN{n}" | .opOut => "oO" | .opIn => "oI"
   | .blkKet n => s!"BK{n}" | .blkOp n => s!"BO{n}" | .blkBra n => s!"BB{n}"
+  | .gKet i n => s!"gK{i}_{n}" | .gKetPhys i => s!"gKP{i}"
+  | .gBra i n => s!"gB{i}_{n}" | .gBraPhys i => s!"gBP{i}"
+  | .gOp i n => s!"gO{i}_{n}" | .gOpOut i => s!"gOO{i}" | .gOpIn i => s!"gOI{i}"
 
 def showT : Option T → String
   | none => "error"
@@ -50,7 +59,39 @@ def showNats (l : List Nat) : String := if l.isEmpty then "-" else ",".intercala
 def parseBool (s : String) : Option Bool :=
   if s = "0" then some false else if s = "1" then some true else none
 
-/-- the bra tensor on a node whose neighbour identifiers are the transformed ones -/
+def parseTreeEntry (s : String) : Option (Nat × List Nat × List Nat) :=
+  match s.splitOn ":" with
+  | [a, b] =>
+    match a.toNat?, b.splitOn ";" with
+    | some i, [k1, k2] =>
+      match parseList k1, parseList k2 with
+      | some l1, some l2 => some (i, l1, l2)
+      | _, _ => none
+    | _, _ => none
+  | _ => none
+
+/-- rebuild the ordered tree from the first child table (`none`: missing entry / not a finite tree) -/
+def buildTree (tbl : List (Nat × List Nat × List Nat)) : Nat → Nat → Option Tree
+  | 0, _ => none
+  | fuel + 1, i =>
+    match tbl.find? (·.1 == i) with
+    | none => none
+    | some (_, ks, _) =>
+      match ks.mapM (buildTree tbl fuel) with
+      | none => none
+      | some ts => some (.node i ts)
+
+def parseTreeCase (root : String) (entries : List String) : Option (Tree × (Nat → List Nat)) :=
+  match root.toNat?, entries.mapM parseTreeEntry with
+  | some r, some tbl =>
+    if (tbl.map (·.1)).eraseDups.length ≠ tbl.length then none else
+    match buildTree tbl (tbl.length + 1) r with
+    | none => none
+    | some t =>
+      if t.ids.length ≠ tbl.length then none
+      else some (t, fun i => ((tbl.find? (·.1 == i)).map (·.2.2)).getD [])
+  | _, _ => none
+
 def handle (args : List String) : String :=
   match args with
   | ["detidx", nd, a, b] =>
@@ -98,6 +139,26 @@ def handle (args : List String) : String :=
     match parseNode kn, parseNode on with
     | some kn, some on => showT (opContractNodeWithEnvironment kn (ketT kn) on (opT on) (braT kn) (cacheAll true))
     | _, _ => "bad-op"
+  | "tree2" :: root :: entries =>
+    match parseTreeCase root entries with
+    | some (t, other) =>
+      showT (contractTwoTtns (netOf t (fun _ ks => ks) gKetT) (netOf t (fun i _ => other i) gBraT))
+    | none => "bad-op"
+  | "tree3" :: root :: entries =>
+    match parseTreeCase root entries with
+    | some (t, other) =>
+      showT (expectationValue (netOf t (fun _ ks => ks) gKetT) (netOf t (fun i _ => other i) gOpT) gBraT)
+    | none => "bad-op"
+  | "asmat" :: root :: entries =>
+    match parseTreeCase root entries with
+    | some (t, _) =>
+      match asMatrix t with
+      | none => "error"
+      | some (order, rows, cols, binds) =>
+        "order " ++ showNats order ++ " | rows " ++ " ".intercalate (rows.map showLeg) ++ " | cols " ++
+          " ".intercalate (cols.map showLeg) ++ " | " ++
+          ("binds " ++ " ".intercalate (binds.map fun p => showLeg p.1 ++ "~" ++ showLeg p.2)).trimAscii.toString
+    | none => "bad-op"
   | _ => "bad-op"
 
 end Ptn.C04
